@@ -21,6 +21,7 @@ cases ready; `resume` runs the goroutine until it parks again. A `select` with s
 picks any: the scheduler's choice is the explicit `preferCtx` argument.
 -/
 import GrpcModel.Generated.Deadline
+import GrpcModel.Generated.Errors
 import GrpcModel.Model.Timeout
 namespace GrpcModel.Deadline
 open GrpcModel.Generated
